@@ -159,6 +159,18 @@ def run(prog: Program, col: Collector, tier: str, refs: Optional[Refs] = None, c
     # ---------------------------------------------------------------- R16.7 container precise types
     col.rule("R16.7", "a precise element type reported for a container is validated or widened for every element", floor=1)
     _container_types(prog, col, refs, cat)
+
+    # ---------------------------------------------------------------- R16.8 covariant structural recursion
+    col.rule("R16.8", "component types of the two sides meet only through the covariant recursive call (or a nominal check of origins)", floor=12)
+    _covariant_recursion(prog, col, refs, cat)
+
+    # ---------------------------------------------------------------- R16.9 canonical parameters
+    col.rule("R16.9", "type parameters are canonicalised (object -> Any) before they are stored or compared", floor=2)
+    _canonical_parameters(prog, col, refs)
+
+    # ---------------------------------------------------------------- R16.10 registration keeps the whole pattern
+    col.rule("R16.10", "the signature registered is built from the whole pattern (no element or tail dropped)", floor=3)
+    _whole_pattern(prog, col, refs)
     return col
 
 
@@ -510,3 +522,326 @@ def _container_types(prog: Program, col: Collector, refs: Refs, cat: Catalogue):
                                   path=" -> ".join(f"L{getattr(n.ast, 'lineno', '?')}" for n in bad_path if n.ast is not None))
                 else:
                     col.ok(construct, f"a failed element check is followed by widening `{tp}` or raising on every path", f.loc(t))
+
+
+# ---------------------------------------------------------------------- R16.8
+SUB, CLS = "sub", "cls"
+
+
+def _oracle_functions(prog: Program, refs: Refs, cat: Catalogue):
+    """(function, {param: side}) for every function of the subtype oracle: deep_issubclass, the handlers it dispatches to through
+    the subclasscheck table, and every __subclasscheck__ metaclass method of funsor.typing."""
+    root = require_func(prog, "funsor.typing::deep_issubclass")
+    if len(root.positional) != 2:
+        raise AnalysisError("deep_issubclass no longer takes (subcls, cls)")
+    out = [(root, {root.positional[0]: SUB, root.positional[1]: CLS})]
+    # side of the handler parameters: read off the table call inside deep_issubclass
+    handler_sides = None
+    for c in ast.walk(root.node):
+        if isinstance(c, ast.Call) and isinstance(c.func, ast.Subscript) and len(c.args) == 2 and all(isinstance(a, ast.Name) for a in c.args):
+            sides = [out[0][1].get(a.id) for a in c.args]
+            if None not in sides and set(sides) == {SUB, CLS}:
+                handler_sides = sides
+                table = refs.resolve(c.func.value) if isinstance(c.func.value, (ast.Name, ast.Attribute)) else None
+    if handler_sides is None:
+        raise AnalysisError("deep_issubclass no longer dispatches to a table of per-origin handlers with (cls, subcls)")
+    mod = root.module
+    # handlers: functions decorated with the registering decorator (a function whose inner function stores into the table)
+    for f in prog.functions_in(mod):
+        if f.cls is not None or f.parent is not None or isinstance(f.node, ast.Lambda):
+            continue
+        decs = [d for d in f.decorators if isinstance(d, ast.Call) and isinstance(d.func, ast.Name)]
+        is_handler = False
+        for d in decs:
+            dr = refs.resolve(d.func)
+            df = prog.funcs.get((dr or "").replace("funsor.typing.", "funsor.typing::", 1)) if dr else None
+            if df is not None and any(isinstance(n, ast.Subscript) and isinstance(n.ctx, ast.Store) and refs.resolve(n.value) == table
+                                      for n in ast.walk(df.node) if isinstance(getattr(n, "value", None), (ast.Name, ast.Attribute))):
+                is_handler = True
+        if is_handler and len(f.positional) == 2:
+            out.append((f, {f.positional[0]: handler_sides[0], f.positional[1]: handler_sides[1]}))
+    for c in prog.classes.values():
+        if c.module is mod and "__subclasscheck__" in c.methods:
+            m = c.methods["__subclasscheck__"]
+            if len(m.positional) == 2:
+                out.append((m, {m.positional[0]: CLS, m.positional[1]: SUB}))
+    return out
+
+
+def _covariant_recursion(prog: Program, col: Collector, refs: Refs, cat: Catalogue):
+    funcs = _oracle_functions(prog, refs, cat)
+    col.cur.analysed["oracle_functions"] = [f.fq for f, _ in funcs]
+    n_rec = 0
+    for f, sides in funcs:
+        taint: Dict[str, Set[str]] = {k: {v} for k, v in sides.items()}
+
+        def t_of(e) -> Set[str]:
+            if e is None:
+                return set()
+            if isinstance(e, ast.Call) and isinstance(e.func, ast.Name) and e.func.id == "len":
+                return set()
+            if isinstance(e, (ast.GeneratorExp, ast.ListComp, ast.SetComp, ast.DictComp, ast.Lambda)):
+                return set()
+            if isinstance(e, ast.Name):
+                return set(taint.get(e.id, ()))
+            out = set()
+            for ch in ast.iter_child_nodes(e):
+                out |= t_of(ch)
+            return out
+
+        def bind(target, value_taints):
+            changed = False
+            if isinstance(target, ast.Name):
+                cur = taint.setdefault(target.id, set())
+                if not value_taints <= cur:
+                    cur |= value_taints
+                    changed = True
+            elif isinstance(target, (ast.Tuple, ast.List)):
+                for e in target.elts:
+                    changed |= bind(e, value_taints)
+            return changed
+
+        def bind_iter(target, it):
+            # for a, b in zip(X, Y): elementwise
+            if isinstance(it, ast.Call) and isinstance(it.func, ast.Name) and it.func.id == "zip" and isinstance(target, (ast.Tuple, ast.List)) \
+                    and len(target.elts) == len(it.args):
+                ch = False
+                for te, a in zip(target.elts, it.args):
+                    ch |= bind(te, t_of(a))
+                return ch
+            return bind(target, t_of(it))
+
+        for _ in range(6):
+            changed = False
+            for n in ast.walk(f.node):
+                if isinstance(n, ast.Assign):
+                    for tg in n.targets:
+                        if isinstance(tg, (ast.Tuple, ast.List)) and isinstance(n.value, (ast.Tuple, ast.List)) and len(tg.elts) == len(n.value.elts):
+                            for te, ve in zip(tg.elts, n.value.elts):
+                                changed |= bind(te, t_of(ve))
+                        else:
+                            changed |= bind(tg, t_of(n.value))
+                elif isinstance(n, ast.For):
+                    changed |= bind_iter(n.target, n.iter)
+                elif isinstance(n, ast.comprehension):
+                    changed |= bind_iter(n.target, n.iter)
+                elif isinstance(n, ast.NamedExpr):
+                    changed |= bind(n.target, t_of(n.value))
+            if not changed:
+                break
+
+        def both(ts):
+            return SUB in ts and CLS in ts
+
+        for n in ast.walk(f.node):
+            loc = f.loc(n) if hasattr(n, "lineno") else f.loc()
+            if isinstance(n, ast.Call):
+                callee = refs.resolve(n.func) if isinstance(n.func, (ast.Name, ast.Attribute)) else None
+                arg_ts = [t_of(a.value if isinstance(a, ast.Starred) else a) for a in n.args] + [t_of(k.value) for k in n.keywords]
+                recv_t = t_of(n.func.value) if isinstance(n.func, ast.Attribute) else (t_of(n.func) if not isinstance(n.func, ast.Name) else set())
+                construct = f"{f.fq}::{norm(n)}"
+                if callee == "funsor.typing.deep_issubclass" and len(n.args) == 2:
+                    n_rec += 1
+                    a, b = arg_ts[0], arg_ts[1]
+                    col.check(CLS not in a and SUB not in b and bool(a) and bool(b), construct,
+                              "recursive comparison is covariant: (component of the candidate subtype, component of the pattern)",
+                              f"the recursive call compares {sorted(a) or ['nothing']} against {sorted(b) or ['nothing']}: components of the candidate subtype must be on the left and "
+                              "components of the pattern on the right (anything else makes the relation contravariant or compares a side with itself)", loc)
+                    continue
+                if callee == "builtins.issubclass" and len(n.args) == 2:
+                    a, b = arg_ts[0], arg_ts[1]
+                    def nominal(e, params_side):
+                        return (isinstance(e, ast.Name) and e.id in sides) or (isinstance(e, ast.Call) and refs.resolve(e.func) == "funsor.typing.get_origin")
+                    good = CLS not in a and SUB not in b and nominal(n.args[0], SUB) and nominal(n.args[1], CLS)
+                    # a nominal check of the candidate's origin against a fixed class (frozenset) has an untainted right side
+                    if not b and CLS not in a:
+                        good = True
+                    col.check(good, construct, "nominal check of the origins, candidate on the left",
+                              "issubclass is applied to something other than the two sides (or their origins) in (candidate, pattern) order", loc)
+                    continue
+                if isinstance(n.func, ast.Attribute) and n.func.attr == "__subclasscheck__":
+                    # super(Meta, origin_of_pattern).__subclasscheck__(candidate [origin])
+                    a = arg_ts[0] if arg_ts else set()
+                    col.check(SUB not in recv_t and CLS not in a, construct, "nominal delegation: pattern's origin asks about the candidate",
+                              "the nominal __subclasscheck__ delegation has the sides swapped", loc)
+                    continue
+                if isinstance(n.func, ast.Subscript) and len(n.args) == 2:
+                    # the handler table call
+                    continue
+                if isinstance(n.func, ast.Name) and n.func.id == "zip":
+                    p = f.module.parent.get(n)
+                    if isinstance(p, (ast.comprehension, ast.For)) and p.iter is n and isinstance(p.target, (ast.Tuple, ast.List)) and len(p.target.elts) == len(n.args):
+                        continue
+                mixed = both(set().union(*arg_ts, recv_t)) if (arg_ts or recv_t) else False
+                if mixed:
+                    col.violation(construct, "components of the candidate subtype and of the pattern are combined by a call other than the recursive deep_issubclass / a nominal "
+                                  "origin check: parameters have subtypes, so comparing them by identity, equality or set membership loses every generalisation", loc)
+            elif isinstance(n, ast.Compare):
+                ops_identity = all(isinstance(o, (ast.Is, ast.IsNot)) for o in n.ops)
+                ts = [t_of(n.left)] + [t_of(c) for c in n.comparators]
+                allt = set().union(*ts)
+                if both(allt) and not ops_identity:
+                    col.violation(f"{f.fq}::{norm(n)}", "components of the two sides are compared with ==/!=/in/<=: the parametric relation must recurse through deep_issubclass", loc)
+                elif both(allt):
+                    # `cls is subcls`: reflexivity shortcut, only sound between the two whole sides
+                    whole = all(isinstance(x, ast.Name) and x.id in sides for x in [n.left] + list(n.comparators))
+                    col.check(whole, f"{f.fq}::{norm(n)}", "identity shortcut between the two whole types (reflexivity)",
+                              "identity comparison between components of the two sides: subtypes of a parameter are rejected", loc)
+            elif isinstance(n, ast.BinOp):
+                if both(t_of(n.left) | t_of(n.right)) and not isinstance(n.op, (ast.Mod,)):
+                    col.violation(f"{f.fq}::{norm(n)}", "components of the two sides are combined arithmetically / as sets instead of through the recursive relation", loc)
+    col.cur.analysed["recursive_comparisons"] = n_rec
+    if n_rec < 8:
+        raise AnalysisError(f"only {n_rec} recursive deep_issubclass comparison(s) found in the subtype oracle; expected at least 8")
+
+
+# ---------------------------------------------------------------------- R16.9
+def _canonical_parameters(prog: Program, col: Collector, refs: Refs):
+    mod = prog.modules.get("funsor.typing")
+    if mod is None:
+        raise AnalysisError("funsor.typing not found")
+    # the canonicaliser by role: a one-parameter function that rebinds its parameter to typing.Any when it `is object`
+    canon = []
+    for f in prog.functions_in(mod):
+        if f.cls is not None or isinstance(f.node, ast.Lambda) or len(f.positional) != 1:
+            continue
+        p = f.positional[0]
+        for n in walk_no_nested(f.node):
+            if isinstance(n, (ast.If, ast.IfExp)) and isinstance(n.test, ast.Compare) and len(n.test.ops) == 1 and isinstance(n.test.ops[0], (ast.Is, ast.Eq)) \
+                    and {norm(n.test.left), norm(n.test.comparators[0])} == {p, "object"}:
+                if any(refs.resolve(x) == "typing.Any" for x in ast.walk(n) if isinstance(x, (ast.Name, ast.Attribute))):
+                    canon.append(f)
+    if not canon:
+        raise AnalysisError("cannot locate the parameter canonicaliser (object -> typing.Any) of funsor.typing by role")
+    canon_names = {f"funsor.typing.{f.name}" for f in canon}
+    gtm = prog.classes.get("funsor.typing.GenericTypeMeta")
+    if gtm is None or "__getitem__" not in gtm.methods or "__subclasscheck__" not in gtm.methods:
+        raise AnalysisError("GenericTypeMeta.__getitem__/__subclasscheck__ not found")
+    gi, sc = gtm.methods["__getitem__"], gtm.methods["__subclasscheck__"]
+
+    def is_canon_app(e) -> bool:
+        if isinstance(e, ast.Call):
+            r = refs.resolve(e.func) if isinstance(e.func, (ast.Name, ast.Attribute)) else None
+            if r in canon_names:
+                return True
+            if isinstance(e.func, ast.Name) and e.func.id in ("tuple", "list") and len(e.args) == 1:
+                return is_canon_app(e.args[0])
+            if isinstance(e.func, ast.Name) and e.func.id == "map" and len(e.args) == 2:
+                r0 = refs.resolve(e.args[0]) if isinstance(e.args[0], (ast.Name, ast.Attribute)) else None
+                return r0 in canon_names
+        if isinstance(e, (ast.GeneratorExp, ast.ListComp)) and not any(g.ifs for g in e.generators):
+            return is_canon_app(e.elt)
+        return False
+
+    # construction: the value stored under "__args__" (and used as the cache key) is canonicalised on every path
+    from ..dataflow import Walker
+
+    def ev(expr, env):
+        if is_canon_app(expr):
+            return frozenset({"canon"})
+        if isinstance(expr, ast.Name):
+            return env.get(expr.id, frozenset({"raw"}))
+        if isinstance(expr, ast.Tuple) and len(expr.elts) == 1:
+            return ev(expr.elts[0], env)
+        return frozenset({"raw"})
+
+    stored = {}
+
+    def on_stmt(st, env):
+        for n in ast.walk(st) if not isinstance(st, (ast.If, ast.Try, ast.For, ast.While, ast.With)) else []:
+            if isinstance(n, ast.Dict):
+                for k, v in zip(n.keys, n.values):
+                    if isinstance(k, ast.Constant) and k.value == "__args__":
+                        stored[n] = ev(v, env)
+            if isinstance(n, ast.keyword) and n.arg == "__args__":
+                stored[n] = ev(n.value, env)
+            if isinstance(n, ast.Assign):
+                for tg in n.targets:
+                    if isinstance(tg, ast.Subscript) and isinstance(tg.slice, ast.Constant) and tg.slice.value == "__args__":
+                        stored[n] = ev(n.value, env)
+                    if isinstance(tg, ast.Attribute) and tg.attr == "__args__":
+                        stored[n] = ev(n.value, env)
+
+    Walker(gi.node, ev, on_stmt, init_env={p: frozenset({"raw"}) for p in gi.positional}).run()
+    if not stored:
+        raise AnalysisError("GenericTypeMeta.__getitem__ no longer stores `__args__` in a recognisable way")
+    construction = all(v == frozenset({"canon"}) for v in stored.values())
+    # comparison: both operands of the recursive parameter comparison canonicalised
+    comps = [c for c in ast.walk(sc.node) if isinstance(c, ast.Call) and refs.resolve(c.func) == "funsor.typing.deep_issubclass" and len(c.args) == 2]
+    comparison = bool(comps) and all(is_canon_app(c.args[0]) and is_canon_app(c.args[1]) for c in comps)
+    col.check(construction or comparison, f"{gi.fq}::__args__ canonical",
+              f"parameters are canonicalised {'when the parametrised class is built' if construction else ''}{' and ' if construction and comparison else ''}{'when parameters are compared' if comparison else ''}",
+              "type parameters are neither canonicalised (object -> typing.Any) when a parametrised term class is built nor when parameters are compared: `T[..., object]` "
+              "and `T[..., Any]` become different, incomparable patterns and tuple/frozenset-typed arguments are handed to issubclass(…, object)", gi.loc())
+    col.ok(f"{canon[0].fq}::canonicaliser", f"canonicaliser located by role: {', '.join(sorted(canon_names))}", canon[0].loc(), nontrivial=False)
+    # the dispatch-side wrapper canonicalises before wrapping
+    rsm = prog.classes.get("funsor.typing._RuntimeSubclassCheckMeta")
+    if rsm is not None and "__call__" in rsm.methods:
+        m = rsm.methods["__call__"]
+        uses = [c for c in ast.walk(m.node) if isinstance(c, ast.Call) and (refs.resolve(c.func) if isinstance(c.func, (ast.Name, ast.Attribute)) else None) in canon_names]
+        subs = [n for n in ast.walk(m.node) if isinstance(n, ast.Subscript) and isinstance(n.value, ast.Name) and n.value.id == m.positional[0]]
+        col.check(bool(uses) or construction, f"{m.fq}::canonical before wrapping", "typing_wrap(tp) canonicalises tp (directly or through cls[tp])",
+                  "typing_wrap no longer canonicalises its argument and cls[tp] does not either", m.loc())
+
+
+# ---------------------------------------------------------------------- R16.10
+def _whole_pattern(prog: Program, col: Collector, refs: Refs):
+    add = require_func(prog, "funsor.registry::PartialDispatcher.add")
+    if len(add.positional) < 3:
+        raise AnalysisError("PartialDispatcher.add no longer takes (self, signature, func)")
+    sig, fn = add.positional[1], add.positional[2]
+    tainted = {sig}
+    for _ in range(5):
+        before = len(tainted)
+        for n in ast.walk(add.node):
+            if isinstance(n, ast.Assign) and any(isinstance(x, ast.Name) and x.id in tainted for x in ast.walk(n.value)):
+                for tg in n.targets:
+                    for x in ast.walk(tg):
+                        if isinstance(x, ast.Name):
+                            tainted.add(x.id)
+            if isinstance(n, (ast.comprehension, ast.For)) and any(isinstance(x, ast.Name) and x.id in tainted for x in ast.walk(n.iter)):
+                for x in ast.walk(n.target):
+                    if isinstance(x, ast.Name):
+                        tainted.add(x.id)
+        if len(tainted) == before:
+            break
+    # the annotation path rebinds `signature` from the rule's type hints: those names are patterns too
+    drops = []
+    for n in ast.walk(add.node):
+        if isinstance(n, ast.Subscript) and isinstance(n.value, ast.Name) and n.value.id in tainted and isinstance(n.ctx, ast.Load):
+            drops.append(n)
+        if isinstance(n, ast.comprehension) and n.ifs and any(isinstance(x, ast.Name) and x.id in tainted for x in ast.walk(n.iter)):
+            p = add.module.parent.get(n)
+            # `any(isinstance(typ, tuple) for typ in signature)` style tests are not constructions; only flag filters in value position
+            pp = add.module.parent.get(p)
+            if not (isinstance(pp, ast.Call) and isinstance(pp.func, ast.Name) and pp.func.id in ("any", "all")):
+                drops.append(n)
+        if isinstance(n, ast.Call) and isinstance(n.func, ast.Name) and n.func.id in ("next", "min", "max", "set", "frozenset", "sorted") \
+                and any(isinstance(x, ast.Name) and x.id in tainted for a in n.args for x in ast.walk(a)):
+            drops.append(n)
+    for d in drops:
+        col.violation(f"{add.fq}::{norm(d)}", "the registered signature is built from part of the pattern (an element, slice, filter or unordered view): two different "
+                      "patterns can collapse to one signature, and which rule runs then depends on registration order", add.loc(d))
+    if not drops:
+        col.ok(f"{add.fq}::pattern used whole", f"no subscript / filter / unordered view of the pattern ({', '.join(sorted(tainted))}) on the registration path", add.loc())
+    supers = [c for c in ast.walk(add.node) if isinstance(c, ast.Call) and is_super_call(c, "add")]
+    if not supers:
+        raise AnalysisError("PartialDispatcher.add no longer calls super().add")
+    for c in supers:
+        good = len(c.args) == 2 and isinstance(c.args[0], ast.Name) and c.args[0].id in tainted and isinstance(c.args[1], ast.Name) and c.args[1].id == fn
+        col.check(good, f"{add.fq}::{norm(c)}", "the signature derived from the pattern and the rule as passed are what is registered",
+                  "super().add receives something other than (the signature derived from the pattern, the rule as passed)", add.loc(c))
+    # the list -> Variadic adapter takes all element types
+    for n in ast.walk(add.node):
+        if isinstance(n, ast.Subscript) and refs.resolve(n.value) == "funsor.typing.Variadic" if isinstance(getattr(n, "value", None), (ast.Name, ast.Attribute)) else False:
+            inner = n.slice
+            names = [x for x in ast.walk(inner) if isinstance(x, ast.Name) and x.id in tainted]
+            whole = bool(names) and not any(isinstance(add.module.parent.get(x), ast.Subscript) and add.module.parent.get(x).value is x for x in names)
+            col.check(whole, f"{add.fq}::{norm(n)}", "a list pattern becomes Variadic over all its element types",
+                      "a list pattern is turned into a Variadic over only part of its element types", add.loc(n))
+    kr = require_func(prog, "funsor.registry::KeyedRegistry.register")
+    va = kr.node.args.vararg.arg if kr.node.args.vararg else None
+    fwd = [c for c in ast.walk(kr.node) if isinstance(c, ast.Call) and any(isinstance(a, ast.Starred) and isinstance(a.value, ast.Name) and a.value.id == va for a in c.args)]
+    sub = [n for n in ast.walk(kr.node) if isinstance(n, ast.Subscript) and isinstance(n.value, ast.Name) and n.value.id == va]
+    col.check(bool(fwd) and not sub and va is not None, f"{kr.fq}::*{va}", "all pattern types are forwarded to the per-class dispatcher",
+              "KeyedRegistry.register does not forward all pattern types", kr.loc())
